@@ -18,15 +18,15 @@ open Persist
 * `reimport`: serde export → import → `fix_import` of an object whose store is reachable (whatever
   its bookkeeping fields hold);
 * `bridge`: `from_biodivine_vector` replaying an ordered dump (`DumpOK`) into a reachable store. -/
-inductive Reach : Store → Prop
-  | fresh : Reach Store.init
-  | op (s : Store) (hist : List Nat) (o : Op) : Reach s → (∀ t ∈ hist, t < s.nodes.size) →
-      o.valid hist.length → Reach (stepOp s hist o).1
-  | rebuild (s : Store) : Reach s → Reach (rebuild s.nodes)
-  | rebuildBook (s : Store) : Reach s → Reach (rebuildP s.nodes).st
-  | reimport (b : PBdd) : Reach b.st → Reach (fixImport (importB (exportB b))).st
-  | bridge (s : Store) (d : List Node) : Reach s → DumpOK d → 2 ≤ d.length →
-      Reach (replayL (d.drop 2) s [0, 1]).1
+inductive StoreReach : Store → Prop
+  | fresh : StoreReach Store.init
+  | op (s : Store) (hist : List Nat) (o : Op) : StoreReach s → (∀ t ∈ hist, t < s.nodes.size) →
+      o.valid hist.length → StoreReach (stepOp s hist o).1
+  | rebuild (s : Store) : StoreReach s → StoreReach (rebuild s.nodes)
+  | rebuildBook (s : Store) : StoreReach s → StoreReach (rebuildP s.nodes).st
+  | reimport (b : PBdd) : StoreReach b.st → StoreReach (fixImport (importB (exportB b))).st
+  | bridge (s : Store) (d : List Node) : StoreReach s → DumpOK d → 2 ≤ d.length →
+      StoreReach (replayL (d.drop 2) s [0, 1]).1
 
 /-- any list of valid handles is a history denoting its own functions -/
 theorem HistOK.ofValid (s : Store) (hist : List Nat) (h : ∀ t ∈ hist, t < s.nodes.size) :
@@ -38,7 +38,7 @@ theorem HistOK.ofValid (s : Store) (hist : List Nat) (h : ∀ t ∈ hist, t < s.
   intro σ
   simp [fget, List.getD, hk, e]
 
-theorem reach_wf_aux {s : Store} (r : Reach s) : WF s := by
+theorem reach_wf_aux {s : Store} (r : StoreReach s) : WF s := by
   induction r with
   | fresh => exact WF_init
   | op s hist o _ hv ho ih => exact (stepOp_good s hist _ o ih (HistOK.ofValid s hist hv) ho).wf
@@ -51,7 +51,7 @@ theorem reach_wf_aux {s : Store} (r : Reach s) : WF s := by
   | bridge s d _ hd hl ih => exact (bridge_correct d hd hl s ih).1
 
 /-- the result handle of an operation on a reachable store is a handle of the new store -/
-theorem reach_op_handle (s : Store) (hist : List Nat) (o : Op) (r : Reach s)
+theorem reach_op_handle (s : Store) (hist : List Nat) (o : Op) (r : StoreReach s)
     (hv : ∀ t ∈ hist, t < s.nodes.size) (ho : o.valid hist.length) :
     (stepOp s hist o).2 < (stepOp s hist o).1.nodes.size ∧
     ∀ σ, eval (stepOp s hist o).1 (stepOp s hist o).2 σ = semOp (hist.map (eval s)) o σ :=
